@@ -209,6 +209,20 @@ class Mon:
                     for t in self.maps[e[0]]['frm']:
                         if self.isin(q, t, self.V) and not any(self.isin(q, t, self.maps[e2[0]]['to']) for e2 in self.E):
                             self.fail('C02', 'd: trigger key of a mapping in effect is held on the virtual keyboard', (i, t, e[0]))
+            else:
+                # weak form for layouts with absorbing mappings, where the in-effect set is not tracked: a key t all of whose
+                # mappings are single-key ones certainly fired one of them at its (acted) press, and that mapping stays in
+                # effect while t is held; "some mapping in effect outputs t" is over-approximated by "some mapping that
+                # outputs t has all its trigger keys held", so only certain violations are reported
+                for t in self.V:
+                    if not self.isin(q, t, self.P):
+                        continue
+                    ending = [m for m in self.maps if q.keq(m['frm'][-1], t)]
+                    if not ending or any(len(m['frm']) != 1 for m in ending):
+                        continue
+                    if not any(self.isin(q, t, m2['to']) and all(self.isin(q, x, self.P) for x in m2['frm']) for m2 in self.maps):
+                        self.fail('C02', 'd: key whose only mappings are single-key ones is held on the virtual keyboard although no mapping whose triggers are held outputs it', (i, t))
+                        break
 
         # ---------------- C09
         if self.on('C09'):
